@@ -1,7 +1,6 @@
 """scratch runner for contracts/noise_models.py (dedE): python scratch/nm_run.py <group> [label-substring]"""
 import sys, time, os
 sys.path.insert(0, "/verif"); sys.path.insert(0, os.environ.get("VERIF_REPO", "/repo"))
-import scratch.nm_patch  # noqa
 from contracts import noise_models as N
 from pyvc.driver import run_tasks
 
